@@ -128,7 +128,18 @@ where
                 other.as_mut().consume(processed);
                 // Check if we can squeeze a bit more data from the other side to send in the same frame
                 let mut should_shutdown = false;
-                while let Poll::Ready(Ok(new_buf)) = other.as_mut().poll_fill_buf(cx) {
+                let mut read_error = None;
+                loop {
+                    let new_buf = match other.as_mut().poll_fill_buf(cx) {
+                        Poll::Ready(Ok(new_buf)) => new_buf,
+                        Poll::Ready(Err(e)) => {
+                            // No waker is registered in this case, so the error must not be
+                            // swallowed: send what we have and then report it.
+                            read_error = Some(e);
+                            break;
+                        }
+                        Poll::Pending => break,
+                    };
                     if new_buf.is_empty() {
                         // The other side is EOF'd, send what we have and then shutdown
                         should_shutdown = true;
@@ -144,6 +155,10 @@ where
                     .send(Message::Binary(msg_payload.into()))
                     .or(Err(BrokenPipe))?;
                 written_amt += cumulated_len;
+                if let Some(e) = read_error {
+                    *this.write_state = WriteState::Transferring(written_amt);
+                    return Poll::Ready(Err(e));
+                }
                 if should_shutdown {
                     this.us.do_shutdown();
                     *this.write_state = WriteState::Done(written_amt);
